@@ -96,6 +96,8 @@ func (p c08) RunUnit(idx int, tier string, seed int64, focus map[string]string, 
 		text := ws.Paths[st.Path].Files[st.File]
 		// (a) every value cursor of the base file
 		p.checkText(idx, rc, st, text, -1, "", rep)
+		// (d) the same file with CRLF line endings: the constraint at every cursor is the same
+		p.crlfTwin(idx, rc, st, text, rep)
 		// (b),(c) typing replays
 		_, env, _ := buildState(rc, st)
 		if env == nil {
@@ -570,3 +572,149 @@ func (p c08) Replay(w *runner.Witness, rep *runner.Reporter) error {
 }
 
 func init() { Register(c08{}) }
+
+
+// crlfTwin asks for completion at every cursor of a file and at the corresponding cursor
+// of the same file written with CRLF line endings. The constraint at the cursor is the
+// same in both, so the offered candidates (label and kind) must be the same; a difference
+// means that one of the two lists is not what the constraint admits.
+func (p c08) crlfTwin(unit int, rc Recipe, st State, text string, rep *runner.Reporter) {
+	if strings.Contains(text, "\r") || strings.Contains(text, "<<") {
+		return // already CRLF; heredoc bodies legitimately differ
+	}
+	p.crlfCompare(unit, rc, st, text, nil, "crlf", rep)
+	// an empty line opened in every argument / element slot: behind the opening bracket
+	// and behind every separating comma of calls, tuples and objects
+	f, diags := hclsyntax.ParseConfig([]byte(text), st.File, hcl.InitialPos)
+	if f == nil || diags.HasErrors() {
+		return
+	}
+	var sites []int
+	afterComma := func(from, to int) {
+		for i := from; i < to && i < len(text); i++ {
+			switch text[i] {
+			case ',':
+				sites = append(sites, i+1)
+				return
+			case ' ', '\t':
+			default:
+				return
+			}
+		}
+	}
+	hclsyntax.VisitAll(f.Body.(*hclsyntax.Body), func(n hclsyntax.Node) hcl.Diagnostics {
+		switch e := n.(type) {
+		case *hclsyntax.FunctionCallExpr:
+			sites = append(sites, e.OpenParenRange.End.Byte)
+			for _, a := range e.Args {
+				afterComma(a.Range().End.Byte, e.CloseParenRange.Start.Byte)
+			}
+		case *hclsyntax.TupleConsExpr:
+			sites = append(sites, e.OpenRange.End.Byte)
+			for _, a := range e.Exprs {
+				afterComma(a.Range().End.Byte, e.SrcRange.End.Byte-1)
+			}
+		case *hclsyntax.ObjectConsExpr:
+			sites = append(sites, e.OpenRange.End.Byte)
+			for _, it := range e.Items {
+				afterComma(it.ValueExpr.Range().End.Byte, e.SrcRange.End.Byte-1)
+			}
+		}
+		return nil
+	})
+	sort.Ints(sites)
+	if len(sites) > 80 {
+		// evenly thinned, deterministic
+		var th []int
+		for i := 0; i < 80; i++ {
+			th = append(th, sites[i*len(sites)/80])
+		}
+		sites = th
+	}
+	for _, k := range sites {
+		if k <= 0 || k > len(text) {
+			continue
+		}
+		opened := text[:k] + "\n    \n" + text[k:]
+		rep.Count("crlf_twin_slots", 1)
+		p.crlfCompare(unit, rc, st, opened, []int{k + 5}, "crlf-slot", rep)
+	}
+}
+
+// crlfCompare compares completion at the given cursors (all when nil) of an LF text with
+// the corresponding cursors of its CRLF rendering.
+func (p c08) crlfCompare(unit int, rc Recipe, st State, text string, only []int, arg string, rep *runner.Reporter) {
+	twin := strings.ReplaceAll(text, "\n", "\r\n")
+	mk := func(t string) (*core.Env, *core.Workspace) {
+		ws, err := rc.Make()
+		if err != nil {
+			return nil, nil
+		}
+		ws.Paths[st.Path].Files[st.File] = t
+		return ws.Build(true), ws
+	}
+	envA, _ := mk(text)
+	envB, wsB := mk(twin)
+	if envA == nil || envB == nil {
+		return
+	}
+	tabA, tabB := envA.Tables[st.Path][st.File], envB.Tables[st.Path][st.File]
+	if tabA == nil || tabB == nil {
+		return
+	}
+	offs := only
+	if offs == nil {
+		offs = tabA.Offsets()
+	}
+	nl := 0
+	next := 0
+	for _, off := range offs {
+		for next < off && next < len(text) {
+			if text[next] == '\n' {
+				nl++
+			}
+			next++
+		}
+		posA, ok1 := tabA.At(off)
+		posB, ok2 := tabB.At(off + nl)
+		if !ok1 || !ok2 {
+			continue
+		}
+		rep.Mark(unit, off, -2, -1)
+		qa := core.Query{Kind: core.QCompletion, Path: st.Path, File: st.File, Pos: posA}
+		qb := core.Query{Kind: core.QCompletion, Path: st.Path, File: st.File, Pos: posB}
+		ra, rb := envA.Run(qa), envB.Run(qb)
+		rep.Eval(2)
+		rep.Count("crlf_twin_cursors", 1)
+		unitJSON := mustJSON(CaseSpec{Recipe: rc, Path: st.Path, File: st.File, Mut: Mutation{Kind: "text", Text: twin}, Kind: qb.Kind.String(), Byte: off + nl, Arg: arg})
+		if ra.Panic != nil || rb.Panic != nil {
+			continue
+		}
+		if (ra.Err != nil) != (rb.Err != nil) {
+			rep.Violation(&runner.Witness{Sig: "CRLF-TWIN completion fails with one line ending only",
+				What: fmt.Sprintf("completion at the same cursor returns an error with one line ending and candidates with the other: LF err=%v CRLF err=%v", ra.Err, rb.Err),
+				Unit: unitJSON, Files: filesOf(wsB), Query: qb.String()})
+			continue
+		}
+		ca, _ := ra.Value.(lang.Candidates)
+		cb, _ := rb.Value.(lang.Candidates)
+		la, lb := candLabels(ca), candLabels(cb)
+		if len(ca.List) > 0 && only != nil {
+			rep.Count("crlf_twin_slots_with_candidates", 1)
+		}
+		if la != lb {
+			rep.Violation(&runner.Witness{Sig: "CRLF-TWIN candidates differ with the line ending",
+				What: fmt.Sprintf("the same cursor of the same file offers different candidates with LF and with CRLF line endings (the constraint there is the same)\n LF  : %s\n CRLF: %s", la, lb),
+				Unit: unitJSON, Files: filesOf(wsB), Query: qb.String()})
+		}
+	}
+}
+
+func candLabels(c lang.Candidates) string {
+	var ls []string
+	for _, x := range c.List {
+		ls = append(ls, fmt.Sprintf("%s/%d", x.Label, x.Kind))
+	}
+	sort.Strings(ls)
+	return fmt.Sprintf("complete=%v %s", c.IsComplete, strings.Join(ls, " "))
+}
